@@ -64,6 +64,7 @@ type Ctx struct {
 	Rules       []*RuleInfo
 	rulesByID   map[string]*RuleInfo
 	keyCount    map[string]int
+	ruleAlias   map[string]string // rule id used by a shared rule function → rule id of the property being checked
 	Assumptions []string
 	Extra       map[string]any
 	FuncsSeen   map[string]bool
@@ -322,6 +323,10 @@ func (c *Ctx) rule(id, text string, floor int) *RuleInfo {
 }
 
 func (c *Ctx) add(rule, key, pos, status, detail string) {
+	// a rule function shared with another property reports under the id that property gave it
+	if a, ok := c.ruleAlias[rule]; ok {
+		rule = a
+	}
 	r := c.rulesByID[rule]
 	if r == nil {
 		panic("unknown rule " + rule)
